@@ -36,7 +36,8 @@ ObjCands(n) ==
      {Obj(<< <<"r", c>> >>) : c \in Cands(Nn(Nm("Int")))}
      \cup {Obj(<< <<"r", K("iS")>>, <<"x", c>> >>) : c \in {Null, K("iS"), K("sTXT")}}
      \cup {Obj(<< <<"y", c>>, <<"r", K("iS")>> >>) : c \in {Null, K("iS"), Lst(<<K("iS"), Null>>), Lst(<<>>)}}
-     \cup {Obj(<<>>), Obj(<< <<"r", K("iS")>>, <<"zz", K("iS")>> >>), Obj(<< <<"x", K("iS")>> >>)}
+     \cup {Obj(<<>>), Obj(<< <<"r", K("iS")>>, <<"zz", K("iS")>> >>), Obj(<< <<"x", K("iS")>> >>),
+           Obj(<< <<"r", K("iS")>>, <<"k", Null>> >>), Obj(<< <<"r", K("iS")>>, <<"k", K("iS")>> >>)}
   ELSE
      {Obj(<< <<"e", c>> >>) : c \in {K("eX"), K("eZ"), Null, K("iS")}}
      \cup {Obj(<<>>), Obj(<< <<"n", Obj(<< <<"s", Null>> >>)>> >>), Obj(<< <<"n", Obj(<< <<"n", Null>>, <<"e", K("eZ")>> >>)>> >>),
